@@ -180,6 +180,11 @@ structure Mon where
   pausedByUser : Bool := false
   missed : List (Nat × Nat) := []           -- id ↦ consecutive opens missed while seated-in with chips
   stayIn : List Nat := []                   -- ids dealt into the last hand who must be dealt into the next
+  lastDealt : List Nat := []                -- ids dealt into the last hand that opened
+  handsOpened : Nat := 0
+  atLastOpen : List Nat := []               -- ids at the table when the last hand opened
+  tentativeButton : Option Int := none      -- small-blind seat before the last rotation (the seat the waiting flags were computed against)
+  flagsClean : Bool := false                -- no refused rotation since the last open (a refusal re-flags against tentative seats)
   fundedAtTick : Nat := 0                   -- seated-in players with chips when the continue handler ran
   expectOpen : Bool := false                -- the gate was set up by the continue handler with ≥ 2 funded players
 
@@ -213,7 +218,10 @@ def onOpenedSnap (m : Mon) (o : Obs) : Mon × List String :=
     (if o.cfg.rule != .shortDeck && !(clockwise o) then ["C02.hand-list-not-clockwise"] else []) ++
     (if o.cfg.rule == .default then
       (if labelsOK o then [] else ["C06.labels-not-in-standard-order-from-bb"]) ++
-      (if labelClaims o then [] else ["C06.label-claims-violated"])
+      (if labelClaims o then []
+       else if (o.players.filter (·.participated)).length ≥ 3 && SMSpec.strictlyBetweenCw o.cfg.maxSeat o.sb o.bb o.dealer
+       then ["C06.label-claims-violated.big-blind-passed-the-dead-button"]   -- finding D26
+       else ["C06.label-claims-violated"])
      else [])
   ({ m with openObs := some o, openIds := ids }, v)
 
@@ -250,6 +258,23 @@ def aliveCount (o : Obs) : Nat := (o.players.filter (fun p => p.bankroll > 0)).l
 
 def bump (l : List (Nat × Nat)) (id : Nat) : List (Nat × Nat) :=
   if l.any (·.1 == id) then l.map (fun e => if e.1 == id then (id, e.2 + 1) else e) else l ++ [(id, 1)]
+
+/-- C05, re-buy after a bust that cost at least one hand: the waiting flag must be the one a newcomer given this seat now
+would get (geometric, against the published button and big blind). Result: none = fine, some cls = monitor class. -/
+def rebuyTerms (m : Mon) (p o : Obs) (sm : SM.State) : List String :=
+  o.players.foldl (fun acc q => match p.players.find? (·.id == q.id), sm.seats q.seat with
+    | some q0, some sp =>
+      if q0.bankroll == (0 : Int) && decide (q.bankroll > (0 : Int)) && decide (m.handsOpened ≥ 2) && m.flagsClean && m.atLastOpen.contains q.id &&
+         !(m.lastDealt.contains q.id) && sm.isInit && sm.rule == .default then
+        if sp.between == SMSpec.strictlyBetweenCw sm.maxSeat sm.dealer sm.bb q.seat then acc
+        else match m.tentativeButton with
+          | some td =>
+            if td != sm.dealer && sp.between == SMSpec.strictlyBetweenCw sm.maxSeat td sm.bb q.seat
+            then acc ++ ["C05.re-buyer-not-on-the-same-terms-as-a-newcomer.flag-from-tentative-button"]
+            else acc ++ ["C05.re-buyer-not-on-the-same-terms-as-a-newcomer"]
+          | none => acc ++ ["C05.re-buyer-not-on-the-same-terms-as-a-newcomer"]
+      else acc
+    | _, _ => acc) []
 
 /-- an observation after operation `label` -/
 def onObs (m : Mon) (label : String) (ok : Bool) (membership : Bool) (prev : Option Obs) (o : Obs) : Mon × List String :=
@@ -309,8 +334,12 @@ def onObs (m : Mon) (label : String) (ok : Bool) (membership : Bool) (prev : Opt
           if q.isIn && q.bankroll > 0 && !q.participated then bump acc q.id
           else acc.filter (·.1 != q.id)) (m.missed.filter (fun e => o.players.any (·.id == e.1)))
         let v5b := if missed.any (fun e => e.2 > 3) then ["C05.seated-in-player-with-chips-missed-more-than-three-hands"] else []
-        ({ m with openBlind := some p.blind, missed := missed, expectOpen := false,
-                  stayIn := (o.players.filter (·.participated)).map (·.id) }, v7 ++ v12 ++ v5 ++ v5b)
+        let dealtNow := (o.players.filter (·.participated)).map (·.id)
+        let v5c : List String := []
+        ({ m with openBlind := some p.blind, missed := missed, expectOpen := false, lastDealt := dealtNow, handsOpened := m.handsOpened + 1,
+                  atLastOpen := o.players.map (·.id), flagsClean := true,
+                  tentativeButton := (match p.sm with | some smPre => if smPre.isInit then some smPre.sb else none | none => none),
+                  stayIn := dealtNow }, v7 ++ v12 ++ v5 ++ v5b ++ v5c)
     else if label == "fire.nothing" || label == "fire.refused" then
       match prev with
       | none => (m, [])
@@ -325,7 +354,7 @@ def onObs (m : Mon) (label : String) (ok : Bool) (membership : Bool) (prev : Opt
              | none => ["C08.no-hand-opened-although-two-seated-in-players-have-chips"])
           else []
         let v7 := if o.gameCount == p.gameCount then [] else ["C07.game-count-changed-without-an-open"]
-        (m, v8 ++ v7)
+        ({ m with flagsClean := false }, v8 ++ v7)
     else if label == "settle" then
       match prev, m.openObs with
       | some p, some oo =>
@@ -387,7 +416,11 @@ def onObs (m : Mon) (label : String) (ok : Bool) (membership : Bool) (prev : Opt
             let want := sm.isInit && sm.rule == .default && SMSpec.strictlyBetweenCw sm.maxSeat sm.dealer sm.bb q.seat
             sp.between == want
           | none => false)
-        (m, if okFlag then [] else ["C05.newcomer-waiting-flag-wrong"])
+        (m, (if okFlag then [] else ["C05.newcomer-waiting-flag-wrong"]) ++ rebuyTerms m p o sm)
+      | _, _ => (m, [])
+    else if label == "redeem" && ok then
+      match prev, o.sm with
+      | some p, some sm => (m, rebuyTerms m p o sm)
       | _, _ => (m, [])
     else (m, [])
   -- ---- while a hand runs: its list keeps denoting the same players, its blinds stay
